@@ -333,16 +333,19 @@ Definition written (buf r : bytes) (off n v : N) : Prop :=
   length r = length buf /\ (bytes_ok buf -> bytes_ok r) /\
   forall p, bit r p = if (off <=? p) && (p <? off + n) then N.testbit v (p - off) else bit buf p.
 
-Theorem set_uxx_exact little buf size off value len :
-  size <= blen buf -> 8 * blen buf < two64 -> off + len < two64 ->
+(* the current (saturating) capacity check needs no bound on off + len: EVERY offset and length *)
+Theorem set_uxx_exact_all little buf size off value len :
+  size <= blen buf -> 8 * blen buf < two64 ->
   (size * 8 < off + len -> set_uxx little buf size off value len = Some (inr TooSmall)) /\
   (off + len <= size * 8 ->
    exists r, set_uxx little buf size off value len = Some (inl r) /\ written buf r off (N.min len 64) (w64 value)).
 Proof.
-  intros Hsz H64 Hno. unfold set_uxx. rewrite (w64_small (size * 8)), (w64_small (off + len)) by lia.
+  intros Hsz H64. unfold set_uxx. rewrite (w64_small (size * 8)) by lia.
   split; intros H.
-  - apply N.ltb_lt in H. rewrite H. reflexivity.
-  - replace (size * 8 <? off + len) with false by (symmetry; apply N.ltb_ge; lia).
+  - destruct (N.ltb_spec (size * 8) off); cbn [orb]; [reflexivity|].
+    replace (size * 8 - off <? len) with true by (symmetry; apply N.ltb_lt; lia). reflexivity.
+  - replace (size * 8 <? off) with false by (symmetry; apply N.ltb_ge; lia).
+    replace (size * 8 - off <? len) with false by (symmetry; apply N.ltb_ge; lia). cbn [orb].
     rewrite choose_min_spec.
     assert (X : (if little then mem_le 8 (w64 value) else tmp_any (w64 value)) = le_bytes 8 (w64 value))
       by (destruct little; [apply mem_le_le|apply tmp_any_le]).
@@ -359,6 +362,14 @@ Proof.
         replace (0 + (p - off) <? 8 * N.of_nat 8) with true by (symmetry; apply N.ltb_lt; lia).
         cbn [andb]. rewrite N.add_0_l. reflexivity.
 Qed.
+
+(* statement kept from the time of the wrapping check (the third premise is no longer needed) *)
+Theorem set_uxx_exact little buf size off value len :
+  size <= blen buf -> 8 * blen buf < two64 -> off + len < two64 ->
+  (size * 8 < off + len -> set_uxx little buf size off value len = Some (inr TooSmall)) /\
+  (off + len <= size * 8 ->
+   exists r, set_uxx little buf size off value len = Some (inl r) /\ written buf r off (N.min len 64) (w64 value)).
+Proof. intros Hsz H64 _. apply set_uxx_exact_all; assumption. Qed.
 
 (* two's complement: the low 64 bits written by nunavutSetIxx are those of the signed value *)
 Lemma set_ixx_value (z : Z) k : k < 64 ->
@@ -719,6 +730,20 @@ Theorem set_uxx_exact_b little buf size off value len :
 Proof.
   intros Hb Hl. apply buf_pre_elim in Hb as (H1 & H2 & H3 & H4). apply N.ltb_lt in Hl.
   destruct (set_uxx_exact little buf size off value len H1 H2 Hl) as [Ha Hb].
+  destruct (N.ltb_spec (size * 8) (off + len)); [apply Ha; assumption|].
+  destruct (Hb H) as (r & Hr & Hlen & _ & Hbits). exists r. auto.
+Qed.
+
+Theorem set_uxx_exact_all_b little buf size off value len :
+  buf_pre buf size off = true ->
+  if size * 8 <? off + len
+  then set_uxx little buf size off value len = Some (inr TooSmall)
+  else exists r, set_uxx little buf size off value len = Some (inl r) /\ length r = length buf /\
+         forall p, bit r p = if (off <=? p) && (p <? off + N.min len 64)
+                             then N.testbit (value mod 2 ^ 64) (p - off) else bit buf p.
+Proof.
+  intros Hb. apply buf_pre_elim in Hb as (H1 & H2 & H3 & H4).
+  destruct (set_uxx_exact_all little buf size off value len H1 H2) as [Ha Hb].
   destruct (N.ltb_spec (size * 8) (off + len)); [apply Ha; assumption|].
   destruct (Hb H) as (r & Hr & Hlen & _ & Hbits). exists r. auto.
 Qed.
